@@ -26,6 +26,7 @@ RULE += ("; added after the mutation rounds: length 6-9 S/T/Y-rich sequences; 13
 RULE += ("; round 5: distributions over 7, 9, 10 (thorough up to 11) sites")
 RULE += ("; round 8: position lists of one 0/1 entry per residue; positions beyond 64 bits")
 RULE += ("; round 9: shuffled copies of objects with sites (carry none, setting theirs leaves the parent alone); later requests naming all held sites in another order")
+RULE += ("; round 10: after a 7-9 site distribution: the site list, then clear + the same sites in the opposite order + the distribution again; a second front-end handle on an object with sites")
 EXHAUSTIVE = {"quick": False, "thorough": False}
 ASSUMPTIONS = [
     "warning filters that escalate warnings to errors are not part of the driven environment (a library may legitimately warn)",
